@@ -211,3 +211,22 @@ def run(ck):
                 ok = False
                 detail.append('the stored value is replaced before it is compared')
             ck.ob('R20.7', 'conflict-keeps-first-value', ok and n_err >= 1, L.loc(m), 'conflict arm(s): %d, none writes the array' % n_err if ok and n_err else '; '.join(detail) or 'no arm diagnoses a conflict')
+
+    # ---- R20.8 what KIND of element an object becomes does not depend on how many of its bindings exist ------------------------------
+    ck.rule('R20.8', 'the element kind of an object is decided from its class and fixed bindings, not from the number of its bindings')
+    n_k = 0
+    for name in ('uigen::object::is_action_separator', 'uigen::object::UiObject::build', 'uigen::layout::LayoutItemContent::build'):
+        fn = L.fn(name)
+        if fn is None:
+            continue
+        n_k += 1
+        ck.analysed(fn['path'])
+        sized = []
+        for c in H.calls_in(fn['body']):
+            if c.get('m') in ('len', 'is_empty', 'count') and 'HashMap<&str, uigen::objcode::PropertyCode' in (L.ty(c['recv'], adjusted=True) or L.ty(c['recv']) or ''):
+                sized.append(c)
+        ck.ob('R20.8', 'kind-independent-of-binding-count|%s' % short(fn['path']), not sized, L.loc(sized[0]) if sized else L.loc(fn['body']),
+              'the decision reads the class and named bindings only' if not sized else
+              'the decision reads the size of the binding map (%s): a binding that is later found faulty still counts, so the faulty document and the same document without that binding get different element kinds '
+              '(a separator becomes a real action and the parent\'s <addaction> entry changes)' % pp(sized[0], maxlen=50), fn=fn['path'])
+    ck.floor('R20.8', n_k, 3, 'kind-deciding functions')
